@@ -24,6 +24,9 @@ pub struct Knobs {
     pub p_via_from: f64,
     pub p_zero_keyframes: f64,
     pub p_empty_merged: f64,
+    /// probability that one keyframe of a timeline is split into two keyframes at the same
+    /// position defining disjoint sets of properties
+    pub p_split_keyframe: f64,
     /// C20 domain: boundary repeat counts, extreme but finite durations/delays/values.
     pub extreme: bool,
     /// u8 values restricted to [64,191] because a Back easing may overshoot (documented panic).
@@ -70,6 +73,7 @@ pub fn gen_knobs(rng: &mut Rng, extreme: bool) -> Knobs {
         p_via_from: *rng.pick(&[0.0, 0.15]),
         p_zero_keyframes: *rng.pick(&[0.0, 0.1]),
         p_empty_merged: *rng.pick(&[0.0, 0.05]),
+        p_split_keyframe: *rng.pick(&[0.0, 0.0, 0.2]),
         extreme,
         narrow_u8,
     }
@@ -246,6 +250,35 @@ pub fn gen_timeline(rng: &mut Rng, k: &Knobs) -> TlSpec {
             kf.easing = Some(*rng.pick(&k.easing_pool));
         }
         kfs.push(kf);
+    }
+    // Two keyframes may share a position as long as no property is defined twice there
+    // ("distinct keyframe positions per property"): split one keyframe's properties in two.
+    if k.p_split_keyframe > 0.0 && rng.chance(k.p_split_keyframe) && !kfs.is_empty() {
+        let i = rng.usize_below(kfs.len());
+        let src = kfs[i].clone();
+        if !src.via_from && [src.a.is_some(), src.b.is_some(), src.n.is_some(), src.k.is_some()].iter().filter(|x| **x).count() >= 2 {
+            let mut first = src.clone();
+            let mut second = src.clone();
+            second.easing = if rng.chance(0.3) { Some(*rng.pick(&k.easing_pool)) } else { None };
+            let mut toggle = rng.chance(0.5);
+            for prop in 0..4 {
+                if src.defines(prop) {
+                    let (keep, drop) = if toggle { (&mut first, &mut second) } else { (&mut second, &mut first) };
+                    let _ = keep;
+                    match prop {
+                        0 => drop.a = None,
+                        1 => drop.b = None,
+                        2 => drop.n = None,
+                        _ => drop.k = None,
+                    }
+                    toggle = !toggle;
+                }
+            }
+            if !first.is_empty() && !second.is_empty() {
+                kfs[i] = first;
+                kfs.insert(i + 1, second);
+            }
+        }
     }
     if rng.chance(k.p_permute) {
         rng.shuffle(&mut kfs);
